@@ -19,13 +19,16 @@ def showBlock (b : Block) : String :=
   if b.isEmpty then "-" else ",".intercalate (b.map fun f => showBytes f.1 ++ ":" ++ showBytes f.2)
 
 /-- hyper-h2 `_initialize_content_length` + `_track_content_length` -/
-def h2ClOk (headResp : Bool) (b : Block) (bodyLen : Nat) : Bool :=
+def h2ClOk (headResp : Bool) (b : Block) (bodyLen : Nat) (endOnTrailers : Bool := false) : Bool :=
   let cls := valuesOf sCL b
   if headResp then bodyLen = 0
   else if !cls.all (fun v => !v.isEmpty && v.all isDigit) then false
   else match cls.map Ref.parseDec with
     | [] => true
-    | some n :: rest => rest.all (· == some n) && (bodyLen = 0 || n = bodyLen)
+    | some n :: rest =>
+      -- the final comparison is made on the DATA frame that carries END_STREAM; a stream ended by trailers only
+      -- passes the running check "not more than announced"
+      rest.all (· == some n) && (bodyLen = 0 || (if endOnTrailers then decide (bodyLen ≤ n) else n = bodyLen))
     | _ => false
 
 def natHexDigits : Nat → Nat → Bytes
@@ -51,7 +54,7 @@ def h1Body (fs : List Field) (body : Bytes) : Bytes :=
 
 def reqOp (cv sv : Nat) (authOk : Bool) (b : Block) (body : Bytes) (trailers : Block) : String :=
   if cv = 2 then
-    if !h2ValidReq b || !h2ClOk false b body.length || !(trailers.isEmpty || h2ValidTrailers trailers) then "reject"
+    if !h2ValidReq b || !h2ClOk false b body.length (!trailers.isEmpty) || !(trailers.isEmpty || h2ValidTrailers trailers) then "reject"
     else match parseH2Request authOk b with
       | none => "reject"
       | some r =>
@@ -81,7 +84,7 @@ def reqStreamedOp (authOk : Bool) (b : Block) (body : Bytes) : String :=
 def respOp (sv cv : Nat) (method : Bytes) (reqTrailers : Bool) (b : Block) (body : Bytes) (trailers : Block) : String :=
   if sv = 2 then
     -- hyper-h2 remembers the request method from the last HEADERS frame it sent on the stream: request trailers erase it
-    if !h2ValidResp b || !h2ClOk (method == sHead && !reqTrailers) b body.length || !(trailers.isEmpty || h2ValidTrailers trailers) then "reject"
+    if !h2ValidResp b || !h2ClOk (method == sHead && !reqTrailers) b body.length (!trailers.isEmpty) || !(trailers.isEmpty || h2ValidTrailers trailers) then "reject"
     else match parseH2Response b with
       | none => "reject"
       | some (st, fs) =>
